@@ -342,6 +342,8 @@ func (l *Ledger) formatBlock(txList []*pb.Transaction,
 func (l *Ledger) saveBlock(block *pb.InternalBlock, batchWrite kvdb.Batch) error {
 	blockBuf, pbErr := proto.Marshal(block)
 	l.blkHeaderCache.Add(string(block.Blockid), block)
+	// the cached full block (QueryBlock / IsTxInTrunk) carries a copy of the header that is rewritten here
+	l.blockCache.Del(string(block.Blockid))
 	if pbErr != nil {
 		l.xlog.Warn("marshal block fail", "pbErr", pbErr)
 		return pbErr
